@@ -34,13 +34,13 @@ package parquet
 //@   ensures[C09] err == nil ==> (wfault ==> old(wfault))
 
 //@ func writeLevels
-//@   requires width <= 4 && isWC(w)
+//@   requires 1 <= width && width <= 4 && isWC(w)
 //@   modifies asWC(w), asBB(asWC(w).w), HA(asBB(asWC(w).w).B)
 //@   ensures err == nil && asWC(w).w == old(asWC(w).w) && sameOrFresh(asBB(asWC(w).w).B)
 //@   ensures[C09] err == nil ==> (wfault ==> old(wfault))
 //@ loop writeLevels#1
 //@   modifies enc, enc.out, HA(enc.out.d), HA(enc.valBuf)
-//@   invariant enc != nil && enc.out != nil && #enc.valBuf == 8 && freshsince(enc) && freshsince(enc.out) && freshsince(enc.valBuf) && freshsince(enc.out.d)
+//@   invariant encInv(enc) && freshsince(enc) && freshsince(enc.out) && freshsince(enc.valBuf) && freshsince(enc.out.d)
 
 //@ func compress
 //@   requires buf != nil
@@ -72,7 +72,7 @@ package parquet
 //@ func (*OptionalField).DoWrite
 //@   requires f != nil && metaOK(meta) && external(w)
 //@   ensures metaOK(meta) && meta.rowGroups == old(meta.rowGroups)
-//@   free-requires f.MaxLevels.Def <= 15 && f.MaxLevels.Rep <= 15
+//@   free-requires 1 <= f.MaxLevels.Def && f.MaxLevels.Def <= 15 && f.MaxLevels.Rep <= 15 && (f.repeated ==> 1 <= f.MaxLevels.Rep)
 //@   modifies meta, HA(meta.rowGroups), heap("sch.ColumnMetaData"), heap("map[string]sch.ColumnChunk"), wfault
 //@   ensures[C09] err == nil ==> (wfault ==> old(wfault))
 
@@ -223,7 +223,7 @@ package parquet
 //@   ensures[C08] err == nil && old(isRC(r)) ==> asRC(r).n == old(asRC(r).n) + (srcPos - old(srcPos))
 
 //@ func readLevels
-//@   requires width <= 4 && dyn(in) == typeid("*bytes.Buffer") && payload(in) != 0
+//@   requires 1 <= width && width <= 4 && dyn(in) == typeid("*bytes.Buffer") && payload(in) != 0
 //@   requires[C18] vDefs
 //@   modifies obj(in), rfault
 //@   ensures freshOrNil(res0)
@@ -240,7 +240,7 @@ package parquet
 
 //@ func (*OptionalField).DoRead
 //@   requires f != nil && external(r)
-//@   free-requires f.MaxLevels.Def <= 15 && f.MaxLevels.Rep <= 15
+//@   free-requires 1 <= f.MaxLevels.Def && f.MaxLevels.Def <= 15 && f.MaxLevels.Rep <= 15 && (f.repeated ==> 1 <= f.MaxLevels.Rep)
 //@   safety[C18] nil-deref
 //@   modifies f, HA(f.Defs), HA(f.Reps), heap("parquet.readCounter"), srcPos, rfault, vPage, vDefs
 //@   ensures err == nil ==> dyn(res0) == typeid("*bytes.Buffer") && payload(res0) != 0 && freshsince(cast("*bytes.Buffer", res0))
